@@ -9,7 +9,9 @@ import (
 	"sync"
 	"time"
 
+	"github.com/aperturerobotics/bifrost/link"
 	"github.com/aperturerobotics/bifrost/peer"
+	"github.com/aperturerobotics/bifrost/protocol"
 	"github.com/aperturerobotics/bifrost/stream"
 
 	"verif/sim/dsim"
@@ -351,3 +353,23 @@ var ErrDeadline = os.ErrDeadlineExceeded
 
 var _ = errors.New
 var _ context.Context
+
+// NewStreamPair creates a free-standing duplex stream (no link): both ends are
+// stream.Stream implementations over a simulator-owned byte stream.
+func (n *Net) NewStreamPair(name string) (*SimStream, *SimStream) {
+	return n.newStreamPair(nil, nil, name)
+}
+
+// StubMounted is a minimal link.MountedStream around a stream end.
+type StubMounted struct {
+	Strm  stream.Stream
+	Peer  peer.ID
+	Proto protocol.ID
+	Lnk   link.MountedLink
+}
+
+func (m *StubMounted) GetStream() stream.Stream     { return m.Strm }
+func (m *StubMounted) GetProtocolID() protocol.ID   { return m.Proto }
+func (m *StubMounted) GetOpenOpts() stream.OpenOpts { return stream.OpenOpts{} }
+func (m *StubMounted) GetPeerID() peer.ID           { return m.Peer }
+func (m *StubMounted) GetLink() link.MountedLink    { return m.Lnk }
